@@ -188,14 +188,15 @@ def run_case(case):
             if case.get("again") and raised is None and fault is None and kind != "picture_bad":
                 # the same kind of stanza from the same sender once more, while whatever the client asked the server because of
                 # the first one (a key request, say) is still unanswered: it is a stanza of its own and acknowledged as such
-                tree2 = (tag, dict(tree[1], id=str(tree[1].get("id")) + "b"), content)
+                # (again="same_id": the server delivers the stanza once more under its id - it never saw the first acknowledgement)
+                tree2 = (tag, dict(tree[1], id=str(tree[1].get("id")) + ("" if case["again"] == "same_id" else "b")), content)
                 n_before = len(rig.bottom.sent)
                 try:
                     rig.inject(T.to_node(tree2))
                 except Exception as e:
                     raised = e
                 sent2 = [s for s in rig.bottom.sent][n_before:]
-                out.label("same_kind_again_before_any_answer")
+                out.label("same_kind_again_before_any_answer", "again=" + ("same_id" if case["again"] == "same_id" else "new_id"))
         finally:
             rig.close()
         evals += 1
@@ -423,6 +424,8 @@ def plan(tier):
     for name, strat, k in list(strategies):
         if name.split(":")[0].split("_")[0] in ("notification", "call", "message", "media") and "failing" not in name:
             strategies.append((name + ":again", strat.map(lambda c: dict(c, again=True)), k))
+            if name.split(":")[0].split("_")[0] in ("notification", "call"):
+                strategies.append((name + ":redelivered", strat.map(lambda c: dict(c, again="same_id")), k))
     return {
         "shards": 16,
         "enumerations": [("unknown_mediatype_fragments", _enum_mediatype_fragments), ("e2e_unpresentable_basic", _enum_e2e)],
@@ -436,3 +439,4 @@ def plan(tier):
 RULE += (' Also: unpresentable content under other stanza types (reaction, poll, pay, newsletter, none); unknown-type notifications carrying blobs of up to 3000 bytes; unpresentable content arriving encrypted (own process, real sessions: direct / group, first contact / after a conversation).')
 RULE += (" Every notification, call and unpresentable-message stimulus is also delivered a second time (new id, same sender) before anything the first one made the client ask the server has been answered; each is acknowledged on its own.")
 RULE += (" Call stanzas also with children of unknown kinds before / behind the child that names the call.")
+RULE += (" Notifications and calls are also redelivered under the same id (the first acknowledgement got lost): acknowledged again.")
